@@ -423,6 +423,19 @@ def run(ctx):
                           message=f"apply_logs reads loop local `{var}` before assigning it in the iteration (value from the "
                                   f"previous record: result depends on batch boundaries)",
                           how="every read is preceded by an assignment in the same iteration")
+    # nothing of the object's state is (re)computed per call of apply_logs: a field written before or after the record
+    # loop is a function of the batch boundaries, which differ between workers reading the same log
+    in_loop = g.reachable(body0, avoid_nodes=[head])
+    per_batch = []
+    loop_stmt_ids = {id(x) for x in ast.walk(head.ast)}
+    for a in field_accesses(f.node):
+        if a.kind in ("write", "mutate") and id(a.node) not in loop_stmt_ids:
+            per_batch.append((a.node, a.field))
+    ctx.check(not per_batch, "R06.4", f.short, "no-per-batch-state",
+              message=f"apply_logs writes {sorted({fld for _, fld in per_batch})} outside the per-record loop: that state is rebuilt once per batch, so what a record does "
+                      f"depends on where the batches were cut (a worker replaying the whole log in one batch diverges from one that synced record by record)",
+              how="every write of a field in apply_logs is inside the per-record loop",
+              where=where(f, per_batch[0][0]) if per_batch else None)
     # dispatch exhaustiveness over JournalOperation is C01 R01.6; here: unknown op asserts
     # ------------------------------------------------------------ R06.5 snapshots
     ctx.rule("R06.5", "snapshot = the replicated object; restore resets every worker-local field and no replicated one")
@@ -482,6 +495,14 @@ def run(ctx):
                 ctx.check(ok, "R06.5", f2.short, "snapshot-is-replay-result",
                           message=f"{m} saves `{norm(a) if a is not None else None}` as snapshot, not pickle.dumps(self._replay_result)",
                           how="pickles the replay result object", where=where(f2, c))
+                # the object is pickled while no other thread of this storage can be in the middle of a replay: apply_logs
+                # advances the cursor before it applies a record, so a snapshot taken then claims a record it does not contain
+                from sa.util import class_lock_fields, lock_section_of
+                held = lock_section_of(c, parent_map(f2.node), class_lock_fields(jcls)) is not None
+                ctx.check(held, "R06.5", f2.short, "snapshot-under-thread-lock",
+                          message=f"{m} pickles the replay result outside the storage's thread lock: another thread can be between `log_number_read += 1` and the "
+                                  f"record's effect, the snapshot then says N+1 records read without record N - every worker restored from it misses that record for ever",
+                          how="save_snapshot(pickle.dumps(..)) inside `with self._thread_lock`", where=where(f2, c))
     ctx.floor("R06.5", "save_snapshot_sites", n_save, 2)
 
     # ------------------------------------------------------------ R06.6 apply only what was read back
